@@ -41,8 +41,9 @@ struct Top { static constexpr auto name = "top"; static void compose(Wiring &w) 
 }  // namespace
 
 extern "C" int harness_main() {
-    g_gap = verif_range("gap", 2, 6);
-    std::int64_t lag_s = verif_range("lag_s", 30, 90);
+    // enumerated (concrete on each path): 1400 cycles of symbolic time arithmetic would make every query quadratic
+    g_gap = 2 + verif_choice("gap", 4);
+    std::int64_t lag_s = 30 + 30 * verif_choice("lag", 3);
     verif_clock_config(0, 0, 0);
     DateTime wall0 = DateTime{std::chrono::duration_cast<TimeDelta>(std::chrono::nanoseconds{verif_clock_ns()})};
     DateTime start = wall0 - TimeDelta{lag_s * 1000000};
